@@ -465,4 +465,100 @@ example : let l := closeWith ⟨true, 720, 432⟩ 100 [⟨.toSelf, 50000, 0, 0, 
 example : let l := closeWith ⟨false, 720, 432⟩ 100 [⟨.toSelf, 50000, 0, 0, none⟩]
     balances l = [⟨.awaitingConfirmations 105, 50000⟩] ∧ spendableTotal (step l (.block 105)) = 50000 := by decide
 
+/-! ### A preimage learned AFTER the commitment confirmed claims EVERY output with that hash
+
+    `counterpartyPreimageIter`, `counterpartyPreimageMatches`, `holderPreimageIter`,
+    `holderClaimIncluded` are TRANSLATED from provide_payment_preimage's scans on every run
+    (tools/gen_preimage_claims.py → Generated/PreimageClaims.lean). -/
+open Ldk.PreimageClaims
+
+/-- **late_preimage_claims_every_match** — for EVERY ledger (any entries, any hash list — hashes may
+    repeat: parts of one multi-part payment over the channel, a reused hash), whichever side's
+    commitment closed the channel: once the preimage of hash `m` is provided, EVERY still-unspent
+    inbound HTLC output carrying hash `m` — not only the first one in the commitment's HTLC list —
+    is claimable by the node (a claim package is pending) and is reported `ContentiousClaimable`. -/
+theorem late_preimage_claims_every_match (hl : HLedger) (m i : Nat) (e : Entry)
+    (he : hl.ledger.entries[i]? = some e) (hh : hl.hashes[i]? = some m)
+    (hin : e.item.inbound = true) (hs : e.stage = .pending) :
+    ∃ e', (hl.provide m).ledger.entries[i]? = some e' ∧ e'.item.kind = .inboundHtlcPreimage ∧
+      e'.stage = .pending ∧ e'.balance = some ⟨.contentious e.item.contestedFrom, e.item.sat⟩ := by
+  have hz : (hl.ledger.entries.zip hl.hashes)[i]? = some (e, m) := by
+    rw [List.getElem?_zip_eq_some]; exact ⟨he, hh⟩
+  have hacc : preimageScanAccepts hl.cfg m (e, m) = true := by
+    unfold preimageScanAccepts
+    simp only [hin, Bool.true_and]
+    cases hl.cfg.holderClose <;> simp [holderClaimIncluded, counterpartyPreimageMatches]
+  have hsel : (selectIdx (if hl.cfg.holderClose then holderPreimageIter else counterpartyPreimageIter)
+      (preimageScanAccepts hl.cfg m) (hl.ledger.entries.zip hl.hashes)).contains i = true := by
+    have hmode : (if hl.cfg.holderClose then holderPreimageIter else counterpartyPreimageIter) = IterMode.all := by
+      cases hl.cfg.holderClose <;> rfl
+    rw [hmode]
+    exact selectIdx_all _ _ i (e, m) hz hacc
+  refine ⟨e.learn hl.cfg, ?_, learn_kind hl.cfg e hs hin, ?_, ?_⟩
+  · rw [provide_getElem?, he]
+    simp only [Option.map_some, hsel, if_true]
+  · rw [(learn_item_sat hl.cfg e).2, hs]
+  · have hk := learn_kind hl.cfg e hs hin
+    have hst : (e.learn hl.cfg).stage = .pending := by rw [(learn_item_sat hl.cfg e).2, hs]
+    have hsat := (learn_item_sat hl.cfg e).1
+    have hcf : (e.learn hl.cfg).item.contestedFrom = e.item.contestedFrom := by
+      unfold Entry.learn; rw [hs]; simp only; split <;> rfl
+    unfold Entry.balance
+    rw [hst]
+    simp only [Item.pendingClass, hk, hsat, hcf]
+
+-- three inbound parts with hash 7 and one HTLC with hash 9, preimages unknown at the counterparty's close:
+-- providing 7 makes all three parts claimable, 9 stays a MaybePreimageClaimableHTLC
+example : let hl := hclose ⟨false, 720, 432⟩ 100 [(⟨.toSelf, 50000, 0, 0, none⟩, 0), (⟨.inboundHtlcUnknown, 1000, 0, 150, none⟩, 7),
+      (⟨.inboundHtlcUnknown, 2000, 0, 150, none⟩, 9), (⟨.inboundHtlcUnknown, 3000, 0, 150, none⟩, 7), (⟨.inboundHtlcUnknown, 4000, 0, 151, none⟩, 7)]
+    balances (hl.provide 7).ledger = [⟨.awaitingConfirmations 105, 50000⟩, ⟨.contentious 150, 1000⟩, ⟨.maybePreimage 150, 2000⟩,
+      ⟨.contentious 150, 3000⟩, ⟨.contentious 151, 4000⟩] ∧
+    entitlement hl.ledger = 50000 ∧ entitlement (hl.provide 7).ledger = 58000 := by decide
+
+/-- **spendable_exactly_when_final_late** — `spendable_exactly_when_final` also holds when preimages
+    arrive after the closure (any interleaving of blocks, claims, counterparty claims and late
+    preimages): an output made claimable by a late preimage is handed out exactly when it is buried
+    and a spend with ITS script's CSV is final. -/
+theorem spendable_exactly_when_final_late (c : CloseCfg) (height : Nat) (items : List (Item × Nat)) (ops : List HOp) :
+    let hl := (hclose c height items).run ops
+    ∀ e ∈ hl.ledger.entries, ∀ h net best, e.stage = .claimed h net →
+      ((e.bury best).stage = .matured net ↔
+        (h + ANTI_REORG_DELAY ≤ best + 1 ∧ ∀ d, scriptCsv c e.item.kind = some d → h + d ≤ best + 1)) := by
+  intro hl e he h net best hs
+  have hcsv := hrun_csvOk ops _ (hclose_csvOk c height items) e he
+  have hcfg : hl.cfg = c := hrun_cfg ops _
+  rw [hcfg] at hcsv
+  rw [bury_claimed_iff best h net e hs, hcsv, item_csv_is_script_csv]
+
+/-- **late_preimage_conservation** — in every state reachable from a closure by blocks, claims,
+    counterparty claims AND late preimages (any order, any hashes): reported + spendable + fees + lost
+    = the entitlement (which grows by every output a late preimage makes claimable), and once
+    everything is buried the drained total (spendable + fees + lost) EQUALS that entitlement. -/
+theorem late_preimage_conservation (c : CloseCfg) (height : Nat) (items : List (Item × Nat)) (ops : List HOp) :
+    let l := ((hclose c height items).run ops).ledger
+    balanceTotal l + spendableTotal l + feesTotal l + lostTotal l = entitlement l ∧
+    (allSettled l = true → balances l = [] ∧ spendableTotal l + feesTotal l + lostTotal l = entitlement l) := by
+  intro l
+  have hok : ∀ e ∈ l.entries, e.ok := hrun_ok ops _ (hclose_ok c height items)
+  have hc := conserved_of_ok l hok
+  refine ⟨hc, fun hs => ?_⟩
+  have hbal : balances l = [] := by
+    unfold balances
+    rw [List.filterMap_eq_nil_iff]
+    intro e he
+    unfold allSettled at hs
+    rw [List.all_eq_true] at hs
+    have := hs e he
+    unfold Entry.balance
+    split <;> simp_all
+  refine ⟨hbal, ?_⟩
+  have h0 : balanceTotal l = 0 := by unfold balanceTotal; rw [hbal]; rfl
+  omega
+
+def lateDemo : HLedger :=
+  HLedger.run (hclose ⟨false, 720, 432⟩ 100 [(⟨.inboundHtlcUnknown, 1000, 0, 150, none⟩, 7), (⟨.inboundHtlcUnknown, 3000, 0, 150, none⟩, 7)])
+    [HOp.op (.block 101), HOp.provide 7, HOp.op (.claim 0 103 900), HOp.op (.claim 1 103 2800), HOp.op (.block 120)]
+example : balances lateDemo.ledger = [] ∧ spendableTotal lateDemo.ledger = 3700 ∧ feesTotal lateDemo.ledger = 300 ∧
+    entitlement lateDemo.ledger = 4000 := by decide
+
 end Ldk.C07
